@@ -30,7 +30,7 @@ CHECKED = ("p2pkh", "p2sh", "wif", "bip32_prv", "bip32_pub", "bip49_prv", "bip49
 KEY_CATS = ("key", "bip32", "bip49", "bip84", "electrum")
 
 
-_SIG_FIELDS = {"b58c": ("starts", "fits"), "seg": ("own", "ver", "len", "var"), "colon": ("tag",), "num": ("w", "even", "len", "b0", "on", "se"),
+_SIG_FIELDS = {"b58c": ("starts", "fits"), "seg": ("own", "ver", "len", "var"), "bech": ("own", "n", "var"), "colon": ("tag",), "num": ("w", "even", "len", "b0", "on", "se"),
                "pair": ("inrange", "on", "y"), "hexsec": ("own", "len", "on")}
 
 
@@ -74,6 +74,11 @@ def _seed_candidates(t, cands):
             for c in cands:
                 if c["k"] == "bip32" and c["p"] and c["d"] == body:
                     out.append(dict(c, k="seed32", d=list(ms)))
+        if t["a"] == [69] and t["w"] == "hex" and len(t["d"]) == 16:
+            # an electrum wallet made from a seed is offered as OElectrum("seed", seed) when its master key is the stretched seed
+            for c in cands:
+                if c["k"] == "electrum" and c["s"] == "prv" and c["d"] == list(nets.electrum_stretch(t["d"])):
+                    out.append(dict(c, s="seed", d=list(t["d"])))
     return out
 
 
@@ -118,7 +123,7 @@ def _case_chunk(recs):
             t2 = nets.structure_of(text)
             if t2 != t:
                 return ("machinery", "text %r: structure %s printed by TLC, %s read back" % (text, t, t2))
-        if t["f"] in ("b58c", "seg", "colon", "pair", "hexsec") and all(c in "0123456789abcdefABCDEF" for c in text) and len(text) % 2 == 0:
+        if t["f"] in ("b58c", "seg", "bech", "colon", "pair", "hexsec") and all(c in "0123456789abcdefABCDEF" for c in text) and len(text) % 2 == 0:
             continue     # (a Base58 word that happens to be hex would also be a script push: not in the rule's scope)
         sig = _cls_sig(r["cls"])
         ans = {}
@@ -242,6 +247,8 @@ def _totality_chunk(args):
         st.text(alphabet=st.characters(min_codepoint=0, max_codepoint=0x10FFFF), max_size=30),
         st.lists(alph, max_size=60).map("".join),
         st.tuples(st.sampled_from(["H:", "P:", "E:", "BTCSEC:", "DOGESEC", ":", "0x", ""]), st.text(alphabet="0123456789abcdefABCDEF", max_size=140)).map("".join),
+        st.tuples(st.sampled_from(["bc", "tb", "ltc", "grs", "a", "zz", "?", "bcrt", "dgb"]), st.lists(st.integers(min_value=0, max_value=31), max_size=9),
+                  st.sampled_from(["bech32", "bech32m"]), st.booleans()).map(lambda x: nets.bech32_text(x[0], x[1], x[2]).upper() if x[3] else nets.bech32_text(x[0], x[1], x[2])),
         st.tuples(st.integers(min_value=-5, max_value=2**260), st.sampled_from(["/", ",", " / ", ""]), st.sampled_from(["even", "odd", "1", "", "0"])).map(
             lambda x: "%d%s%s" % x),
     )
@@ -403,7 +410,6 @@ def _mutate(rnd, kind, text, sym, tbl, alltbl):
 
 
 def record_traces(seed, count, entries):
-    from pycoin.networks.parseable_str import parseable_str
     rnd = random.Random(seed)
     allnets = [(s, n) for s, n in nets.networks() if not nets.is_stub(n)]
     alltbl = nets.table()
@@ -417,9 +423,9 @@ def record_traces(seed, count, entries):
         kind, text = rnd.choice(pool[sym])
         text = _mutate(rnd, kind, text, sym, tbl[sym], alltbl)
         t = nets.structure_of(text)
-        ps = parseable_str(text)
         # the reading network: mostly the producer, sometimes another one
         msym, M = (sym, N) if rnd.random() < 0.75 else rnd.choice(allnets)
+        ps = M.parseable_str_type(text)
         ev = []
         order = list(entries)
         rnd.shuffle(order)
@@ -431,6 +437,101 @@ def record_traces(seed, count, entries):
                 ev.append({"n": msym, "e": e, "t": t, "exc": "", "outs": _seed_candidates(t, nets.project(val))})
         traces.append({"text": text, "kind": kind, "ev": ev})
     return traces
+
+
+BIP173_VALID = ["A12UEL5L", "a12uel5l", "an83characterlonghumanreadablepartthatcontainsthenumber1andtheexcludedcharactersbio1tt5tgs",
+                "abcdef1qpzry9x8gf2tvdw0s3jn54khce6mua7lmqqqxw",
+                "11qqqqqqqqqqqqqqqqqqqqqqqqqqqqqqqqqqqqqqqqqqqqqqqqqqqqqqqqqqqqqqqqqqqqqqqqqqqqqqqqqqc8247j",
+                "split1checkupstagehandshakeupstreamerranterredcaperred2y9e3w", "?1ezyfcl"]
+B58_ENTRIES = ["p2pkh", "p2sh", "wif", "bip32_prv", "bip32_pub", "bip49_prv", "bip49_pub", "bip84_prv", "bip84_pub", "bip32", "bip49", "bip84",
+               "address", "payable", "private_key", "hierarchical_key", "secret", "parse"]
+
+
+def bech32_vectors():
+    """the valid Bech32 (BIP173, transcribed: each must decode, which certifies it) and Bech32m (BIP350, from pycoin's tests) vectors"""
+    import ast
+    from ..ctx import REPO
+    out = list(BIP173_VALID)
+    try:
+        tree = ast.parse(open(os.path.join(REPO, "tests", "bech32_test.py")).read())
+        for node in ast.walk(tree):
+            if isinstance(node, ast.Assign) and getattr(node.targets[0], "id", "") == "VALID":
+                for c in ast.walk(node.value):
+                    if isinstance(c, ast.Constant) and isinstance(c.value, str):
+                        out += c.value.split()
+    except (OSError, SyntaxError):
+        pass
+    for v in out:
+        if nets.bech32_dec(v) is None:
+            raise MachineryError("not a valid Bech32 vector: %r" % v)
+    return out
+
+
+def _session(text, kind, plan):
+    """ONE text object (network.parseable_str_type, as ku's parse_key builds) through plan = [(network symbol, entry)];
+    every call is also made with a fresh plain str: the two answers must agree (history independence)"""
+    first = nets.net(plan[0][0])
+    ps = first.parseable_str_type(text)
+    t = nets.structure_of(text)
+    ev = []
+    for sym, e in plan:
+        M = nets.net(sym)
+        tag, val = nets.call(nets.entry(M, e), ps)
+        ftag, fval = nets.call(nets.entry(M, e), str(text))
+        same = (tag == ftag) and (val == fval if tag != "ok" else nets.project(val) == nets.project(fval))
+        rec = {"n": sym, "e": e, "t": t, "exc": "" if tag == "ok" else val,
+               "outs": [] if tag != "ok" else _seed_candidates(t, nets.project(val))}
+        rec["_fresh"] = None if same else (ftag, _got_summary(ftag, fval), _got_summary(tag, val))
+        ev.append(rec)
+    return {"text": text, "kind": kind, "ev": ev}
+
+
+def shared_sessions(seed, nrandom, entries):
+    """sessions in which one text object is asked by SEVERAL networks in sequence, in different orders:
+    (i) real Base58 serialisations of double-SHA256 networks asked by their producer, by every Groestlcoin-family
+        network (same version bytes for BTC/GRS and XTN/TGRS/GRSRT) and by a third network: producer first, family
+        first, and shuffled;  (ii) texts under the Groestlcoin family's own version bytes with a double-SHA256 checksum;
+    (iii) the BIP173 / BIP350 vectors and empty-data Bech32 texts through every entry point of five networks"""
+    rnd = random.Random(seed)
+    tbl = {t["sym"]: t for t in nets.table()}
+    stubs = [s for s, n in nets.networks() if nets.is_stub(n)]
+    plain = [s for s, n in nets.networks() if not nets.is_stub(n)]
+    out = []
+
+    def plans(producer, others):
+        nets_ = [producer] + others
+        a = [(m, e) for m in nets_ for e in B58_ENTRIES]
+        b = [(m, e) for m in others + [producer] for e in B58_ENTRIES]
+        c = list(a)
+        rnd.shuffle(c)
+        return [a, b, c]
+    producers = ["BTC", "XTN"] + rnd.sample([p for p in plain if p not in ("BTC", "XTN")], nrandom)
+    for P in producers:
+        N = nets.net(P)
+        texts = [(k, x) for k, x in _real_texts(rnd, P, N, tbl[P]) if k in ("wif", "address", "xprv", "xpub")]
+        for kind, text in texts:
+            if nets.b58check_dec(text) is None:
+                continue
+            for plan in plans(P, stubs + [rnd.choice(plain)]):
+                out.append(_session(text, "shared:" + kind, plan))
+    for X in stubs:     # the family's own version bytes (where the table knows them), double-SHA256 checksum
+        t = tbl[X]
+        one = (1).to_bytes(32, "big")
+        body = b"\x01" + b"\x01\x02\x03\x04" + b"\0\0\0\x05" + b"\x22" * 32
+        for pf, pay in ((t["p2pkh"], bytes(range(20))), (t["p2sh"], bytes(range(20))), (t["wif"], one + b"\x01"),
+                        (t["b32prv"], body + b"\0" + one), (t["b32pub"], body + nets.sec_of(nets.G, True))):
+            if pf:
+                text = nets.b58check(bytes(pf) + pay)
+                for plan in plans(rnd.choice(["BTC", "XTN"]), [X]):
+                    out.append(_session(text, "shared:grs-version", plan))
+    five = ["BTC", "XTN", "LTC", "DOGE"] + stubs[:1]
+    vec = bech32_vectors() + [nets.bech32_text(h, [], v) for h in ("bc", "tb", "ltc", "grs", "zz") for v in ("bech32", "bech32m")]
+    for v in vec:
+        plan = [(m, e) for m in five for e in entries]
+        if rnd.random() < 0.5:
+            rnd.shuffle(plan)
+        out.append(_session(v, "shared:bech32-vector", plan))
+    return out
 
 
 def validate_traces(ctx, traces, env):
@@ -497,6 +598,9 @@ def _check_consts(c):
 def _run(ctx, q, stage, env, tbl):
     W = 16
     entries = None
+    if nets.bech32_text("a", [], "bech32") != "a12uel5l" or nets.bech32_text("a", [], "bech32m") != "a1lqfn3a" or \
+            nets.bech32_dec("A12UEL5L") != ("a", [], "bech32"):
+        raise MachineryError("Bech32 evaluator disagrees with the BIP173 / BIP350 vectors")
     # ---- 1. model on synthetic tables
     if stage("model"):
         r = ctx.tlc("MC_ParseDispatch", "MC_ParseDispatch_sane_cases", workers=4, env=env, keep_records=True)
@@ -605,6 +709,16 @@ def _run(ctx, q, stage, env, tbl):
     if stage("traces"):
         ntr = 300 if q else 2500
         traces = record_traces(ctx.seed * 7927 + 18, ntr, entries)
+        shared = shared_sessions(ctx.seed * 6151 + 18, 2 if q else 12, entries)
+        ctx.extra["shared_object_sessions"] = len(shared)
+        for t in shared:
+            for e in t["ev"]:
+                fr = e.pop("_fresh")
+                if fr is not None:
+                    ctx.fail("C18|history|%s|f=%s|shared=%s|fresh=%s" % (_fam(e["e"]), e["t"]["f"], fr[2], fr[1]),
+                             "%s.parse.%s(%r) answers %s on a text object that other parsers have seen before, %s on a fresh str" % (
+                                 e["n"], e["e"], t["text"], fr[2], fr[1]), {"text": t["text"], "event": e, "n": e["n"], "entry": e["e"]})
+        traces = traces + shared
         accepted = []
         nrej = 0
         for chunk in split(traces, max(1, len(traces) // 500)):
